@@ -26,7 +26,7 @@ def c08():
 
 def c06():
     from harness import stepper
-    return [stepper.PathLookup()]
+    return [stepper.PathLookup(), stepper.CoreEval()]
 
 
 def c07():
